@@ -9,8 +9,9 @@ use compute::linalg::{
 
 // ---------------------------------------------------------------------------------------------
 // matrix classes of the property text
-pub const CLASSES: [&str; 9] = [
+pub const CLASSES: [&str; 10] = [
     "dense", "integer-known", "spd", "sym-indef-posdiag", "diag-dominant", "perm-scaled-triangular", "graded", "tiny-scale-posdiag", "sym-dd-posdiag",
+    "sym-int-posdiag",
 ];
 
 fn pow2(k: i64) -> f64 { (2.0f64).powi(k as i32) }
@@ -42,6 +43,14 @@ pub fn gen_matrix(r: &mut Rng, c: &str, n: usize) -> Vec<f64> {
             // symmetric, positive diagonal, large off-diagonal entries: indefinite for n >= 2 (a 2x2 principal minor is negative)
             for i in 0..n { for j in 0..=i {
                 let v = if i == j { r.uniform(0.5, 2.0) } else { let m = r.uniform(2.5, 6.0); if r.coin(0.5) { m } else { -m } };
+                a[i * n + j] = v; a[j * n + i] = v;
+            }}
+        }
+        "sym-int-posdiag" => {
+            // symmetric small-integer entries with many zeros and a positive diagonal: the Cholesky sweep meets pivots that cancel EXACTLY to
+            // zero (or go negative) at any position, not only in the first 2x2 minor; nonsingular draws are kept by the oracle's own elimination
+            for i in 0..n { for j in 0..=i {
+                let v = if i == j { r.range(1, 3) as f64 } else if r.coin(0.45) { 0.0 } else { r.range(-2, 2) as f64 };
                 a[i * n + j] = v; a[j * n + i] = v;
             }}
         }
@@ -246,7 +255,7 @@ pub fn gen(tier: &str, seed: u64, outdir: &str) {
         }
     }
     cs.write(outdir, if thorough { 60 } else { 150 },
-             "nine matrix classes (random dense, integer with known solution, SPD, symmetric indefinite with positive diagonal, symmetric diagonally dominant, diagonally dominant, permuted/scaled triangular, graded over ten decades, tiny-scale non-symmetric with positive diagonal) x every order 1..12 (quick) / 1..32 (thorough) x 1..6 right-hand sides through all six entry points (solve, solve_sys, invert_matrix, Matrix::solve for Vector and Matrix, Matrix::inv) and the two routing predicates; predicate-boundary matrices (asymmetry at the tolerance, zero/negative/NaN diagonal), singular matrices, every small layout conversion, and a malformed stream of arbitrary lengths/shapes; non-trivial = order >= 2 (value cases), a panic (malformed stream); distinct by hash of the case term");
+             "ten matrix classes (random dense, integer with known solution, SPD, symmetric indefinite with positive diagonal, symmetric small-integer with positive diagonal (exact zero pivots), symmetric diagonally dominant, diagonally dominant, permuted/scaled triangular, graded over ten decades, tiny-scale non-symmetric with positive diagonal) x every order 1..12 (quick) / 1..32 (thorough) x 1..6 right-hand sides through all six entry points (solve, solve_sys, invert_matrix, Matrix::solve for Vector and Matrix, Matrix::inv) and the two routing predicates; predicate-boundary matrices (asymmetry at the tolerance, zero/negative/NaN diagonal), singular matrices, every small layout conversion, and a malformed stream of arbitrary lengths/shapes; non-trivial = order >= 2 (value cases), a panic (malformed stream); distinct by hash of the case term");
 }
 
 // ---------------------------------------------------------------------------------------------
